@@ -1160,20 +1160,22 @@ func vaultReplay(prop string) func(t *testing.T, r *rec.Rec, raw json.RawMessage
 	}
 }
 
-func TestC01_vault(t *testing.T)  { vaultCheck(t, "C01", "vault", false) }
-func TestC01_liq(t *testing.T)    { vaultCheck(t, "C01", "liq", true) }
-func TestC02_vault(t *testing.T)  { vaultCheck(t, "C02", "vault", false) }
-func TestC03_vault(t *testing.T)  { vaultCheck(t, "C03", "vault", false) }
-func TestC13_vault(t *testing.T)  { vaultCheck(t, "C13", "vault", false) }
-func TestC09_vaults(t *testing.T) { vaultCheck(t, "C09", "vaults", true) }
-func TestC10_dutch(t *testing.T)  { vaultCheck(t, "C10", "dutch", true) }
-func TestC11_limit(t *testing.T)  { vaultCheck(t, "C11", "limit", true) }
+func TestC01_vault(t *testing.T)       { vaultCheck(t, "C01", "vault", false) }
+func TestC01_liq(t *testing.T)         { vaultCheck(t, "C01", "liq", true) }
+func TestC02_vault(t *testing.T)       { vaultCheck(t, "C02", "vault", false) }
+func TestC03_vault(t *testing.T)       { vaultCheck(t, "C03", "vault", false) }
+func TestC13_vault(t *testing.T)       { vaultCheck(t, "C13", "vault", false) }
+func TestC13_liquidation(t *testing.T) { vaultCheck(t, "C13", "liquidation", true) }
+func TestC09_vaults(t *testing.T)      { vaultCheck(t, "C09", "vaults", true) }
+func TestC10_dutch(t *testing.T)       { vaultCheck(t, "C10", "dutch", true) }
+func TestC11_limit(t *testing.T)       { vaultCheck(t, "C11", "limit", true) }
 
 func init() {
 	replayers["C01.vault"] = vaultReplay("C01")
 	replayers["C02.vault"] = vaultReplay("C02")
 	replayers["C03.vault"] = vaultReplay("C03")
 	replayers["C13.vault"] = vaultReplay("C13")
+	replayers["C13.liquidation"] = vaultReplay("C13")
 	replayers["C01.liq"] = vaultReplay("C01")
 	replayers["C09.vaults"] = vaultReplay("C09")
 	replayers["C10.dutch"] = vaultReplay("C10")
